@@ -254,12 +254,36 @@ func (r *rewriter) rewriteRand() {
 	}
 }
 
+// entryPointPkgs: packages whose methods get a scheduling point at entry (sched mode). Points
+// normally sit at synchronisation operations only, so a critical section whose lock has been
+// removed would run atomically and look correct; with a point at every method entry the bodies
+// of concurrent callers interleave at call granularity whether or not they lock.
+var entryPointPkgs = map[string]bool{
+	"reduction.dev/reduction/batching":          true,
+	"reduction.dev/reduction/storage/snapshots": true,
+}
+
+func (r *rewriter) entryPoints() {
+	if !entryPointPkgs[r.pkg.PkgPath] {
+		return
+	}
+	for _, d := range r.file.Decls {
+		fd, ok := d.(*ast.FuncDecl)
+		if !ok || fd.Recv == nil || fd.Body == nil || len(fd.Body.List) == 0 {
+			continue
+		}
+		call := &ast.ExprStmt{X: r.shimCall("Point", &ast.BasicLit{Kind: token.STRING, Value: strconv.Quote("call:" + fd.Name.Name)})}
+		fd.Body.List = append([]ast.Stmt{call}, fd.Body.List...)
+	}
+}
+
 func (r *rewriter) run() {
 	r.inject()
 	r.rewriteRand()
 	if *mode == "plain" {
 		return
 	}
+	r.entryPoints()
 	// pass 1: statements (select, go, send, range, comma-ok recv)
 	astutil.Apply(r.file, func(c *astutil.Cursor) bool {
 		switch n := c.Node().(type) {
